@@ -9,7 +9,10 @@ one root — limits, faults, which files are required — is `Properties/C10.lea
 Helper lemmas: `Scalibr.Proofs.Phases`.
 -/
 import Scalibr.Proofs.Phases
+import Scalibr.Proofs.Detector
 namespace Scalibr.Phases
+
+def pOk' (n : String) : Plugin := ⟨n, .ok, false⟩
 
 /-- The three phase loops with the early returns in between are ONE loop over the whole schedule. -/
 theorem C10_plugins_one_loop (before : Bool) (nfx : Nat) (roots : List (List (List Plugin))) (sts dets : List Plugin) :
@@ -38,7 +41,10 @@ theorem C10_plugins_stop (before : Bool) (nfx : Nat) (roots : List (List (List P
   | true => simp [ran, names]
   | false => simp [ran_false_eq_through]
 
-/-- FAIL. The scan reports failure exactly when an iteration of the schedule was left out … -/
+/-- FAIL. The scan reports failure exactly when an ITERATION of the schedule was left out. Granularity (audit
+note): an iteration of the filesystem phase is a directory entry, also one no extractor wants, so the scan
+fails as well when only such entries remained although every plugin CALL ran (`C10_plugins_failed_without_work_left`).
+The property asks for ⇐ only — failure whenever work remained — which is `C10_plugins_fail_if_work_remained`. -/
 theorem C10_plugins_failed_iff (before : Bool) (nfx : Nat) (roots : List (List (List Plugin))) (sts dets : List Plugin) :
     (scan before nfx roots sts dets).failed = !(specRemaining before (schedule nfx roots sts dets)).isEmpty := by
   rw [(C10_plugins_one_loop before nfx roots sts dets).2, (loop_started _ _).2]
@@ -46,6 +52,13 @@ theorem C10_plugins_failed_iff (before : Bool) (nfx : Nat) (roots : List (List (
   cases before with
   | true => simp [left]
   | false => simp [left_false_eq_after]
+
+/-- the converse of `C10_plugins_fail_if_work_remained` does not hold: cancelled inside the only Extract call, an
+empty directory entry still to come — every plugin call ran, the scan fails nevertheless (the code cannot know) -/
+theorem C10_plugins_failed_without_work_left :
+    (scan false 1 [[[⟨"fx0@a", .ok, true⟩], []]] [] []).failed = true ∧
+    (scan false 1 [[[⟨"fx0@a", .ok, true⟩], []]] [] []).started = names (schedule 1 [[[⟨"fx0@a", .ok, true⟩], []]] [] []) := by
+  refine ⟨by decide, by decide⟩
 
 /-- … in particular WHENEVER WORK REMAINED: if some scheduled plugin call was not started, the scan failed. -/
 theorem C10_plugins_fail_if_work_remained (before : Bool) (nfx : Nat) (roots : List (List (List Plugin))) (sts dets : List Plugin)
@@ -125,7 +138,72 @@ theorem C10_plugins_nocancel (nfx : Nat) (roots : List (List (List Plugin))) (st
     simp only [specRemaining, Bool.false_eq_true, if_false, after, htw]
     simp
 
+/-! ### the detector loop is modelled twice: here (`loop` over `plUnits`) and, with findings and the index, in
+`Scalibr.Detector.runLoop` (C20). They start the same detectors and return `ctx.Err()` in the same cases. -/
+
+def phOf (d : Detector.Detector) : Plugin := ⟨d.name, .ok, d.cancels⟩
+
+theorem detector_loops_agree (px : Index.PkgMap) (ds : List Detector.Detector) (s : Detector.St) (t : St)
+    (hc : s.cancelled = t.cancelled) (hl : s.calls.map (·.1) = t.started) (hr : s.ctxReturn = false) :
+    (Detector.runLoop px ds s).calls.map (·.1) = (loop (plUnits (ds.map phOf)) t).1.started ∧
+    (Detector.runLoop px ds s).ctxReturn = (loop (plUnits (ds.map phOf)) t).2 := by
+  induction ds generalizing s t with
+  | nil => simp [Detector.runLoop, loop, plUnits, hl, hr]
+  | cons d ds ih =>
+    cases hcs : s.cancelled with
+    | true =>
+      have hct : t.cancelled = true := by rw [← hc, hcs]
+      simp [Detector.runLoop, loop, plUnits, hcs, hct, hl]
+    | false =>
+      have hct : t.cancelled = false := by rw [← hc, hcs]
+      rw [Detector.runLoop]
+      simp only [hcs, Bool.false_eq_true, if_false, List.map_cons, plUnits, loop, hct]
+      exact ih _ _ (by simp [runUnit, hct, phOf]) (by simp [runUnit, hl, phOf]) rfl
+
+theorem validate_ne_ctx (fs : List (Option Detector.Finding)) (ids : List (Detector.AdvID × Detector.Adv)) :
+    Detector.validate fs ids ≠ some .ctx := by
+  induction fs generalizing ids with
+  | nil => simp [Detector.validate]
+  | cons x fs ih =>
+    cases x with
+    | none => simp [Detector.validate]
+    | some f =>
+      unfold Detector.validate
+      split
+      · simp
+      · split
+        · simp
+        · split
+          · split
+            · simp
+            · exact ih _
+          · exact ih _
+
+/-- `detector.Run` of C20's model and the detector phase of this model agree on which detectors start and on
+whether the run ends with `ctx.Err()`. -/
+theorem C10_plugins_detector_models_agree (px : Index.PkgMap) (ds : List Detector.Detector) :
+    (Detector.run ds px).calls.map (·.1) = (loop (plUnits (ds.map phOf)) ⟨false, [], []⟩).1.started ∧
+    ((Detector.run ds px).err = some .ctx ↔ (loop (plUnits (ds.map phOf)) ⟨false, [], []⟩).2 = true) := by
+  obtain ⟨h1, h2⟩ := detector_loops_agree px ds {} ⟨false, [], []⟩ rfl rfl rfl
+  unfold Detector.run
+  simp only []
+  cases hcr : (Detector.runLoop px ds {}).ctxReturn with
+  | true =>
+    rw [hcr] at h2
+    simp [h1, ← h2]
+  | false =>
+    rw [hcr] at h2
+    simp only [Bool.false_eq_true, if_false]
+    cases hv : Detector.validate (Detector.runLoop px ds {}).findings [] with
+    | none => simp [h1, ← h2]
+    | some e =>
+      have : e ≠ .ctx := fun he => validate_ne_ctx _ _ (he ▸ hv)
+      simp [h1, ← h2, this]
+
 /-! ### non-vacuity and the shape of the seeded defect -/
+
+/-- the `Nodup` hypothesis of `C10_plugins_none_after_cancel` is satisfiable (the harness names every call uniquely) -/
+example : (names (schedule 2 [[[pOk' "fx0@a", pOk' "fx1@a"]], [[pOk' "fx0@b"]]] [pOk' "sx0"] [pOk' "det0"])).Nodup := by decide
 
 def pOk (n : String) : Plugin := ⟨n, .ok, false⟩
 /-- standalone extractor `sx0` cancels the context AND returns an error; `sx1` and the detectors must not start -/
